@@ -333,14 +333,24 @@ Proof.
   cbn [map filter fst]. rewrite Z.eqb_refl. cbn [map snd]. f_equal. exact IH.
 Qed.
 
-Definition first_suffix {F} (suffix : F -> Z) (fs : list F) : Z :=
-  match fs with f :: _ => suffix f | [] => 0%Z end.
+Definition max_suffix {F} (suffix : F -> Z) (fs : list F) : Z :=
+  match fs with
+  | f :: r => fold_right (fun g m => Z.max (suffix g) m) (suffix f) r
+  | [] => 0%Z
+  end.
+
+Lemma max_suffix_same {F} (suffix : F -> Z) (k : Z) (f : F) (r : list F) :
+  suffix f = k -> Forall (fun g => suffix g = k) r -> max_suffix suffix (f :: r) = k.
+Proof.
+  intros Hf Hr. cbn [max_suffix]. induction Hr as [|g r Hg Hr IH]; [exact Hf|].
+  cbn [fold_right]. rewrite IH, Hg. apply Z.max_id.
+Qed.
 
 Theorem restart_latest {F} (suffix : F -> Z) (entries : list (Z * F)) :
   entries <> [] ->
   exists m,
     restart_files suffix entries
-    = Some (first_suffix suffix (map snd (filter (fun e => Z.eqb (fst e) m) entries)),
+    = Some (max_suffix suffix (map snd (filter (fun e => Z.eqb (fst e) m) entries)),
             map snd (filter (fun e => Z.eqb (fst e) m) entries)) /\
     In m (map fst entries) /\ Forall (fun e => (fst e <= m)%Z) entries.
 Proof.
@@ -358,7 +368,7 @@ Theorem restart_most_recent {F} (suffix : F -> Z) (older : list (Z * F)) (t : Z)
         (f : F) (last : list F) :
   Forall (fun e => (fst e < t)%Z) older ->
   restart_files suffix (older ++ map (fun g => (t, g)) (f :: last))
-  = Some (suffix f, f :: last).
+  = Some (max_suffix suffix (f :: last), f :: last).
 Proof.
   intros Hold. set (entries := older ++ map (fun g => (t, g)) (f :: last)).
   destruct (restart_latest suffix entries) as (m & Hr & Hin & Hall).
